@@ -193,20 +193,22 @@ func (fr *Frame) callBuiltin(ins *ssa.Call, b *ssa.Builtin, c *ssa.CallCommon, s
 		lx := fmt.Sprintf("(len_%s %s)", sn, x.t)
 		ly := fmt.Sprintf("(len_%s %s)", sn, y.t)
 		var arr string
+		xa := vc.sliceArr(st, x.typ, x.t)
 		if len(y.elems) == 1 {
-			arr = fmt.Sprintf("(store (arr_%s %s) %s %s)", sn, x.t, lx, y.elems[0])
+			arr = fmt.Sprintf("(store %s %s %s)", xa, lx, y.elems[0])
 			ly = "1"
 		} else if len(y.elems) == 0 && y.elemsKnown {
-			arr = fmt.Sprintf("(arr_%s %s)", sn, x.t)
+			arr = xa
 			ly = "0"
 		} else {
+			ya := vc.sliceArr(st, y.typ, y.t)
 			arr = vc.fresh("app", "(Array Int "+es+")")
-			vc.assume(st.pc, fmt.Sprintf("(forall ((i Int)) (! (= (select %s i) (ite (< i %s) (select (arr_%s %s) i) (select (arr_%s %s) (- i %s)))) :pattern ((select %s i))))",
-				arr, lx, sn, x.t, sn, y.t, lx, arr))
+			vc.assume(st.pc, fmt.Sprintf("(forall ((i Int)) (! (= (select %s i) (ite (< i %s) (select %s i) (select %s (- i %s)))) :pattern ((select %s i))))",
+				arr, lx, xa, ya, lx, arr))
 		}
 		nl := fmt.Sprintf("(+ %s %s)", lx, ly)
 		isnil := fmt.Sprintf("(and (nil_%s %s) (= %s 0))", sn, x.t, ly)
-		return []Val{{t: vc.define(regName(ins), sn, fmt.Sprintf("(mk_%s %s %s %s)", sn, arr, nl, isnil)), typ: ins.Type()}}
+		return []Val{{t: vc.define(regName(ins), sn, vc.mkSlice(st, ins.Type(), arr, nl, isnil)), typ: ins.Type()}}
 	case "delete":
 		m := fr.val(c.Args[0])
 		mt := c.Args[0].Type().Underlying().(*types.Map)
@@ -225,7 +227,7 @@ func (fr *Frame) callBuiltin(ins *ssa.Call, b *ssa.Builtin, c *ssa.CallCommon, s
 func (fr *Frame) callStatic(ins *ssa.Call, fn *ssa.Function, bindings []Val, args []Val, st *State) []Val {
 	ex := fr.ex
 	if ex.eng.inModule(fn) && fn.Synthetic == "" {
-		fc := ex.eng.contractFor(fn, ex.aspect)
+		fc := ex.calleeContract(fn)
 		if fc != nil && !fc.Inline {
 			return fr.callContract(ins, fn, fc, args, st)
 		}
